@@ -99,6 +99,19 @@ impl UserDefinedDataWriter {
         self.publication_matched_status.current_count_change -= 1;
     }
 
+    /// Complete the pending wait_for_acknowledgments calls if every remaining matched reliable reader
+    /// has acknowledged all the changes
+    pub fn notify_acknowledgments_if_all_acknowledged(&mut self) {
+        if self
+            .transport_writer
+            .is_change_acknowledged(self.last_change_sequence_number)
+        {
+            for n in self.wait_for_acknowledgments_notification.drain(..) {
+                n.send(Ok(()));
+            }
+        }
+    }
+
     pub fn get_offered_deadline_missed_status(&mut self) -> OfferedDeadlineMissedStatus {
         let status = self.offered_deadline_missed_status.clone();
         self.offered_deadline_missed_status.total_count_change = 0;
